@@ -1907,7 +1907,7 @@ fn run(ctx: &Ctx) {
     };
     tm("fixed");
     // ---- generated part
-    let maxbits = ctx.pick(260, 400);
+    let maxbits = ctx.pick(340, 400);
     let budget = ctx.pick(1_500_000u64, 10_000_000);
     ctx.par_prop("siqs", 64, ctx.n(2000, 6_000), || siqs_strategy(maxbits, budget, 22), check_siqs);
     tm("siqs");
